@@ -61,7 +61,8 @@ type FmtTok struct {
 	Format string
 	Arg    *smt.Term
 	Signed bool
-	X      *XF // float argument in the Int back end
+	X      *XF       // float argument in the Int back end
+	Arg2   *smt.Term // second operand of the two-part numeral "%d.%d"
 }
 
 func mkStr(s string) Str { return Str{c: s} }
